@@ -240,7 +240,12 @@ def gen_set(rng, label=None, backup=None, docgen_opts=None):
             asegs, _anode = rng.choice(scalars)
             others = [s for s, _ in scalars if s != asegs] or [segs]
             argv = ["-g", _path(rng, rng.choice(others)),
-                    "-A", _path(rng, asegs), "-H", "newanc"]
+                    "-A", _path(rng, asegs),
+                    # as people type or paste them: with the sigil, with
+                    # blanks around or inside
+                    "-H", rng.choice(["newanc", "newanc", "&newanc",
+                                      "*newanc ", "new anc", "& newanc",
+                                      " newanc"])]
     else:
         segs, node = any_scalar()
         path = _path(rng, segs)
@@ -763,7 +768,8 @@ class SecretDocGen:
                 doc["i"].append(gd.M([("ref", gd.A(name))]))
 
 
-def gen_rotate(rng, backup=None, peer_faults=None, nsecrets=None):
+def gen_rotate(rng, backup=None, peer_faults=None, nsecrets=None,
+               repeats=False):
     """One eyaml-rotate-keys scenario."""
     files = {
         W + "old_pub.pem": peer_eyaml.key_file("PUBLIC", "old"),
@@ -793,6 +799,14 @@ def gen_rotate(rng, backup=None, peer_faults=None, nsecrets=None):
     argv += ["-r", W + "new_priv.pem", "-u", W + "new_pub.pem",
              "-i", W + "old_priv.pem", "-c", W + "old_pub.pem"]
     argv += targets
+    if repeats and not peer_faults and rng.random() < 0.15:
+        # overlapping globs: one file named twice, maybe spelled differently
+        # (never together with a failing eyaml call: a half-rotated first
+        # visit plus a second visit plus an I/O fault is three things going
+        # wrong, the property speaks of one)
+        again = rng.choice(targets)
+        argv.append(rng.choice([again, again.replace("/sim/w/", "/sim/w/./"),
+                                again.replace("/sim/w/", "/sim/w//")]))
     peer = {"nonce_seed": rng.randrange(1, 60000),
             "block_width": rng.choice([16, 30, 60]),
             "faults": dict(peer_faults or {}), "installed": True}
